@@ -122,6 +122,12 @@ def run(ctx):
         fexe = vlib.build_harness('fft_drv.cpp', blib, be, 'asan')
         rc, out, err = run_san(fexe, flines, env, 1800)
         judge('ASan, FFT and Lagrange-domain entry points of %s' % be, 'fft opcodes 0-11', rc, out, err, {'tool': 'asan-fft', 'backend': be, 'lines': flines})
+        # thread lifetimes on this back-end: first FFT user is a thread that exits; FFT-domain objects allocated by a thread that exits
+        mexe = vlib.build_harness('mem_drv.cpp', blib, be, 'asan')
+        rc, out, err = run_san(mexe, ['threadfirst'], env, 1800)
+        judge('ASan, thread lifetimes (%s)' % be, 'threadfirst', rc, out, err, {'tool': 'asan-be', 'backend': be, 'lines': ['threadfirst']})
+        if rc == 0 and out.strip() and out.split()[:2] != ['ok', '0']:
+            ctx.report('thread-handover-wrong', '%s: transforms on FFT-domain objects that were allocated by a thread which has exited give wrong results (%s)' % (be, out.strip()[:60]), {'tool': 'asan-be', 'backend': be, 'lines': ['threadfirst']})
     # ---- B: memcheck on the AVX2 build (assembly paths)
     vlibd = vlib.build_lib('vg'); vexe = vlib.build_harness('mem_drv.cpp', vlibd, 'spqlios-fma', 'vg')
     vjobs = [['small %d' % n for n in range(1, 14)] + ['small 500', 'small 1023'], ['threadfirst'], [life_line((0, 3, 1, 2, 10, 8, 2), 1)], [life_line((0, 7, 2, 3, 7, 8, 2), 0)], [life_line((0, 8, 1, 16, 2, 4, 4), 1), life_line((0, 1, 1, 1, 16, 2, 2), 0)]]
@@ -190,6 +196,9 @@ def replay(ctx, data):
     if tool == 'allocfail': return vlib.allocfail_replay(data)
     if tool == 'asan':
         exe = vlib.build_harness('mem_drv.cpp', vlib.build_lib('asan'), 'spqlios-fma', 'asan')
+        rc, out, err = run_san(exe, lines, dict(os.environ, ASAN_OPTIONS='detect_leaks=1:exitcode=99'), 7200); print('exit', rc, out[-200:], err[-1500:])
+    elif tool == 'asan-be':
+        exe = vlib.build_harness('mem_drv.cpp', vlib.build_lib('asan'), data.get('backend', 'fftw'), 'asan')
         rc, out, err = run_san(exe, lines, dict(os.environ, ASAN_OPTIONS='detect_leaks=1:exitcode=99'), 7200); print('exit', rc, out[-200:], err[-1500:])
     elif tool == 'asan-drv':
         exe = vlib.build_harness('drv.cpp', vlib.build_lib('asan'), 'spqlios-fma', 'asan')
